@@ -1,9 +1,36 @@
 import NmVerif.Proto
+import NmVerif.Simd.Loop
+/-
+  Driver handler of C12: answers the harness protocol of harness/h_c12_*.cpp with the MODEL
+  (Simd/Loop.lean …) on integer data.  The packed intrinsics are instantiated lane-wise
+  (`xs.map f`, `List.zipWith f`): that is the assumption `LaneWise*` of Props/C12.lean.
+-/
 namespace NmVerif.Driver.C12
-open NmVerif NmVerif.Proto
+open NmVerif NmVerif.Proto NmVerif.Simd
 
-def handle : Handler := fun op _args =>
-  match op with
+/-- scalar functors the model can evaluate exactly on integer-valued data -/
+def unaryF : String → Option (Int → Int)
+  | "floor" => some id
+  | "ceil" => some id
+  | "relu" => some (fun x => max x 0)
+  | "relu6" => some (fun x => min (max x 0) 6)
+  | _ => none
+
+def okVals (shape : List Nat) (vals : List Int) : String :=
+  s!"ok shape={fmtNats shape} val={fmtInts vals}"
+
+def handle : Handler := fun kind a =>
+  match kind with
+  | "unary" => orBad do
+      let f ← (a.get? "op").bind unaryF
+      let lanes ← a.nat "lanes"
+      let shape ← a.nats "shape"
+      let data ← a.ints "data"
+      let col := (a.get? "layout") == some "col"
+      let arr : NDA Int := { shape := shape, colMajor := col, data := data }
+      match simdUnary lanes (·.map f) f arr (List.replicate (prod shape) 0) with
+      | some out => pure (okVals shape out)
+      | none => pure "ub"
   | _ => none
 
 end NmVerif.Driver.C12
